@@ -22,7 +22,7 @@ try:
     demo = os.path.join(dst, "demo.py")
     txt = open(demo).read()
     # demos written by the seeding agents may hard-code their own worktree path: strip it
-    txt2 = re.sub(r"/tmp/seed/C\d+", repo, txt)
+    txt2 = re.sub(r"/tmp/seed\d*/(?:C|g)\d+", repo, txt)
     tmpdemo = os.path.join(tmp, "demo.py")
     open(tmpdemo, "w").write(txt2)
     r0 = subprocess.run(["/venv/bin/python", tmpdemo], env=env, cwd=tmp, capture_output=True, text=True)
